@@ -81,8 +81,8 @@ def gen_dm(rng, nmin=1, mmin=1):
     return {
         "matrix": mtx, "dtypes": dts, "objectives": gen.objectives(rng, m),
         "weights": w,
-        "alternatives": gen.labels(rng, n, gen.LABEL_POOL_A, "A"),
-        "criteria": gen.labels(rng, m, gen.LABEL_POOL_C, "C"),
+        "alternatives": gen.labels(rng, n, gen.LABEL_POOL_A, "A", kinds=False),
+        "criteria": gen.labels(rng, m, gen.LABEL_POOL_C, "C", kinds=False),
     }
 
 
